@@ -248,9 +248,11 @@ func genC17(s uint64, idx int) *Plan {
 		res *= 3
 		p.Outcomes[ip] = o
 	}
+	p.Twin = idx%8 == 3 && !p.CallerNil
 	if via {
 		// reached through ech.Transport, as an http.Client does
 		p.ViaTransport, p.Network = true, "tcp"
+		p.OwnDialer = (idx/8)%2 == 1
 		p.CallerNoALPN = core.Chance(r, 1, 2)
 		for _, ip := range g.ips { // (sorted above)
 			o, ok := p.Outcomes[ip]
